@@ -2,7 +2,7 @@
 import hashlib, json, os, random, sys, time
 
 VERIF = os.path.dirname(os.path.dirname(os.path.abspath(__file__)))
-EVIDENCE_DIR = os.path.join(VERIF, "evidence")
+EVIDENCE_DIR = os.environ.get("VERIF_EVIDENCE_DIR") or os.path.join(VERIF, "evidence")   # the override is for runs against a patched copy of the tree (tools/run_seeds.py --copy)
 REPLAY_DIR = os.path.join(VERIF, "replays")
 FINDINGS = os.path.join(VERIF, "known_findings.txt")
 
